@@ -274,41 +274,42 @@ Fixpoint sk_closed (t : table) (s : sk) : bool :=
 
 Definition table_closed (t : table) : bool := forallb (fun nb => forallb (sk_closed t) (snd nb)) t.
 
-(* the effect kinds called directly in a block, in source order *)
-Fixpoint sk_calls (s : sk) : list kind :=
+(* the call sites of a node, in source order: effect calls, calls of tracked functions, runs
+   of nested actions *)
+Fixpoint sk_sites (s : sk) : list sk :=
   match s with
-  | Call k => [k]
-  | If _ th el => (flat_map sk_calls th ++ flat_map sk_calls el)%list
-  | Loop b => flat_map sk_calls b
+  | Call _ | Fn _ _ | Run _ _ => [s]
+  | If _ th el => (flat_map sk_sites th ++ flat_map sk_sites el)%list
+  | Loop b => flat_map sk_sites b
   | _ => []
   end.
 
-(* delete the n-th direct Call of a node (preorder); used to show that every call of the
+(* delete the n-th call site of a node (preorder); used to show that every call site of the
    skeleton is needed to accept the model's behaviour *)
 Fixpoint sk_del (n : nat) (s : sk) : list sk :=
   match s with
-  | Call k => match n with 0 => [] | S _ => [s] end
+  | Call _ | Fn _ _ | Run _ _ => match n with 0 => [] | S _ => [s] end
   | If c th el =>
-      let nt := List.length (flat_map sk_calls th) in
+      let nt := List.length (flat_map sk_sites th) in
       if Nat.ltb n nt then
         [If c ((fix del_blk (n : nat) (b : list sk) : list sk :=
                   match b with
                   | [] => []
-                  | a :: r => let na := List.length (sk_calls a) in
+                  | a :: r => let na := List.length (sk_sites a) in
                               if Nat.ltb n na then (sk_del n a ++ r)%list else a :: del_blk (n - na) r
                   end) n th) el]
       else
         [If c th ((fix del_blk (n : nat) (b : list sk) : list sk :=
                      match b with
                      | [] => []
-                     | a :: r => let na := List.length (sk_calls a) in
+                     | a :: r => let na := List.length (sk_sites a) in
                                  if Nat.ltb n na then (sk_del n a ++ r)%list else a :: del_blk (n - na) r
                      end) (n - nt) el)]
   | Loop b =>
       [Loop ((fix del_blk (n : nat) (b : list sk) : list sk :=
                 match b with
                 | [] => []
-                | a :: r => let na := List.length (sk_calls a) in
+                | a :: r => let na := List.length (sk_sites a) in
                             if Nat.ltb n na then (sk_del n a ++ r)%list else a :: del_blk (n - na) r
                 end) n b)]
   | _ => [s]
@@ -318,7 +319,7 @@ Fixpoint block_del (n : nat) (b : block) : block :=
   match b with
   | [] => []
   | a :: r =>
-      let na := List.length (sk_calls a) in
+      let na := List.length (sk_sites a) in
       if Nat.ltb n na then (sk_del n a ++ r)%list else a :: block_del (n - na) r
   end.
 
